@@ -38,7 +38,7 @@ ASSUMPTIONS = [
 @st.composite
 def trunc_case(draw):
     o = gens.opts(max_fields=5, max_depth=2, signed_flags=False, null_structs=True)  # signed flags: known finding KF-FLAG, not this property's subject
-    return draw(gens.input_case(o, tail=False))
+    return draw(gens.input_case(o, tail=False, cfg_kw={"flip": True}))
 
 
 def _multi_byte_cut(sem, mask, end):
